@@ -350,6 +350,12 @@ impl<'tcx> Cx<'tcx> {
                 fields.push(("promoted", J::N(uv.promoted.unwrap().as_usize() as i128)));
             }
         }
+        // generic const parameter (e.g. the array length `C` of Layout<C, R, T>): symbolic name
+        if let Const::Ty(_, ct) = c.const_ {
+            if let ty::ConstKind::Param(pc) = ct.kind() {
+                fields.push(("gp", s(pc.name.to_string())));
+            }
+        }
         let env = ty::TypingEnv::post_analysis(tcx, owner);
         // Only evaluate integer-like scalars.
         let scalar_ok = matches!(cty.kind(), ty::Int(_) | ty::Uint(_) | ty::Bool | ty::Char);
